@@ -6,6 +6,7 @@ CONSTANTS
   PatchKinds = {"plain2", "jmpsym", "callsym", "ref"}
   FnLayouts = {"none", "one"}
   EndSyms = {FALSE}
+  NoSyms = {FALSE}
   AnnModes = {"none"}
   WithProxyDel = TRUE
   CfiLayouts = {"none"}
